@@ -32,7 +32,11 @@ def _cases(draw):
         s["zero"] = [draw(st.booleans()) for _ in range(3)]
     p = {}
     if draw(st.booleans()):
-        p = {"pos_tol": draw(gc.ffloat(0.1, 0.9)), "max_cell_size": draw(gc.ffloat(4.0, 14.0)), "cluster_threshold": draw(gc.ffloat(1.0, 4.0)),
+        # explicit magnitudes + jitter (Hypothesis' bounded floats cluster at the lower end and near simple values, so a plain
+        # range would hardly ever give "small max_cell_size with a large cluster_threshold")
+        mag = lambda vals, j: st.builds(lambda v, e: v + e, st.sampled_from(vals), gc.ffloat(0.0, j))
+        p = {"pos_tol": draw(gc.ffloat(0.1, 0.9)), "max_cell_size": draw(mag([4.0, 12.0, 5.0, 8.0, 6.0, 13.0], 1.0)),
+             "cluster_threshold": draw(mag([3.5, 1.0, 2.0, 3.0, 5.0], 1.0)),
              "bond_threshold": draw(gc.ffloat(0.4, 1.0)), "min_coverage": draw(gc.ffloat(0.2, 0.8))}
         # the documented input forms of pos_tol: one number, a list of numbers (the default is a list of two), a numpy array
         form = draw(st.sampled_from(["float", "list", "array", "list2", "array2"]))
